@@ -724,3 +724,13 @@ func Parallel[C any](t *testing.T, property, check string, quickBatches, thoroug
 		}
 	})
 }
+
+// Trash overwrites a byte slice the library handed out - its whole capacity - once the check is
+// done with it: the application owns what it was given and may reuse it; nothing the library
+// returns later may depend on it.
+func Trash(b []byte) {
+	b = b[:cap(b)]
+	for i := range b {
+		b[i] = 0xA5 ^ byte(i)
+	}
+}
